@@ -83,11 +83,11 @@ func hC02Offer(r Wrapper, vp vc.VerifiablePresentation) bool {
 // two clock readings t1 <= t2. Property: a nonce is accepted at most once ("carry a nonce not seen before").
 func H02b() {
 	lo, hi := int64(vParam("b_minunix", hC02MinUnix)), int64(hC02MaxUnix)
-	ns := vParam("b_nsecs", 1)
+	ns, tns := vParam("b_nsecs", 1), vParam("b_tnsecs", 1)
 	created := hC02SymTime("created", lo, hi, ns)
 	expires := hC02SymTime("expires", lo, hi, ns)
-	t1 := hC02SymTime("t1", lo, hi, ns)
-	t2 := hC02SymTime("t2", lo, hi, ns)
+	t1 := hC02SymTime("t1", lo, hi, tns)
+	t2 := hC02SymTime("t2", lo, hi, tns)
 	vAssume(t1.sec < t2.sec || (t1.sec == t2.sec && t1.nsec <= t2.nsec))
 
 	nonce := "n"
